@@ -498,6 +498,11 @@ func (db *SpecDB) loadSpecFile(path, pkgPath string, assumed bool) error {
 		case "pure":
 			reset()
 			key := expandFuncKey(d.text, pkgPath, imports)
+			if prev, dup := db.Funcs[key]; dup && prev.Pkg != pkgPath && strings.Contains(prev.File, "zz_contracts_verif.go") {
+				// a package's own view of this dependency function was loaded first
+				prev.Assumed, prev.View = true, true
+				db.Views[prev.Pkg+"|"+key] = prev
+			}
 			db.Funcs[key] = &FuncSpec{Key: key, Pkg: pkgPath, Pure: true, Assumed: true, HasMod: true, Loops: map[int]*LoopSpec{}, File: path, Line: d.line, Imports: imports}
 		case "func", "ext":
 			reset()
@@ -507,7 +512,13 @@ func (db *SpecDB) loadSpecFile(path, pkgPath string, assumed bool) error {
 				// A package may state its own assumed view of a function
 				// that has a (verified) contract in its home package: the
 				// view is used for calls made from the viewing package only.
-				home := func(fs *FuncSpec) bool { return fs.Pkg != "" && strings.Contains(key, fs.Pkg+".") }
+				home := func(fs *FuncSpec) bool {
+					if strings.Contains(fs.File, "/contracts/ext/") {
+						// the shared assumed contract of a dependency function
+						return true
+					}
+					return fs.Pkg != "" && strings.Contains(key, fs.Pkg+".")
+				}
 				switch {
 				case old.Pkg != curFunc.Pkg && home(old) && !home(curFunc):
 					curFunc.Assumed, curFunc.View = true, true
